@@ -151,13 +151,17 @@ def make_call(rng, entry, pattern, str_dtype=False, big=False):
     if entry in T.JOINS:
         call['api'] = entry
         if entry == 'overlap_join':
-            call['threshold'] = rng.choice([1, 2])
+            call['threshold'] = rng.choice([1, 2, 1.5])
+            call['comp_op'] = rng.choice(['>=', '>=', '>', '='])
         elif ed:
             call['threshold'] = rng.choice([0, 1, 2, 3])
             call['comp_op'] = rng.choice(['<=', '<', '='])
         else:
             call['threshold'] = gen.random_threshold(rng) if not big else rng.choice([0.5, 0.8, 1.0])
             call['allow_empty'] = rng.random() < 0.5
+            call['comp_op'] = rng.choice(['>=', '>=', '>', '='])
+            if rng.random() < 0.15:
+                call['threshold'] = rng.choice([1, 1.0])        # nothing can exceed it: '>' returns no scored pair
     else:
         kind = entry[3:] if entry.startswith('ft:') else rng.choice(T.FILTERS)
         if kind == 'OverlapFilter':
@@ -185,7 +189,7 @@ def make_call(rng, entry, pattern, str_dtype=False, big=False):
             call['candset'] = gen.random_candset(rng, L, R, lkey, rkey,
                                                  size=rng.choice([1, 3, 8, 20, 40]))
             call['c_l_key'], call['c_r_key'] = 'l_' + lkey, 'r_' + rkey
-            call['sim'] = rng.choice(['JACCARD', 'OVERLAP', 'user_len_diff'])
+            call['sim'] = rng.choice(['JACCARD', 'OVERLAP', 'user_len_diff', 'user_tversky', 'user_bound'])
             call['threshold'] = rng.choice([0, 0.3, 0.5, 1])
             call['comp_op'] = rng.choice(['>=', '>', '<=', '<', '=', '!='])
             call.pop('filter')
